@@ -354,9 +354,18 @@ CHECKS = {
         "blocks / loops / catch blocks / called functions / module files "
         "while the rest of the program is laid out over random lines; the "
         "error position, the stack-trace entry of the call and, for modules, "
-        "the mod:<name> file must name that line.",
+        "the mod:<name> file must name that line. Unplanted faults: "
+        "generated calls of every library function and every operator / "
+        "statement form of the C13 tables over generated operands, at top "
+        "level, in a function block and as a bare function body (plus an "
+        "exhaustive table of node-level forms x operands that cannot be "
+        "rendered or converted): whatever runtime error results must carry "
+        "a file and the line of the form (or of code inside an operand), "
+        "every stack-trace entry a file and a line, and the entry of the "
+        "enclosing call its line.",
         "Trusted: the layout generators' line arithmetic; columns are not "
-        "checked; planted constructs are single-line.",
+        "checked; planted constructs are single-line; text handed to eval / "
+        "s at run time counts its own lines.",
         "DESIGN.md section 5 C20",
     ),
 }
